@@ -12,7 +12,7 @@ RULE = ('Fault sequences: histories on both classes and both modes (edge_removal
         'calls without t), each followed by legal continuations. For every raising call: exception type, '
         'observe(G) before == after (nodes+attrs, timelines, ids, counts, stream, presence scan) for single calls, and '
         'state == model-after-preceding-elements for bulk calls; at the end the C01/C03/C04/C05 oracles against a model '
-        'that never saw the rejected calls. non-trivial = a rejected call mentioned a node or an instant not yet in the '
+        'that never saw the rejected calls; 24 fixed histories with a bulk call of 1100-1300 elements whose 600th is rejected, in every tier. non-trivial = a rejected call mentioned a node or an instant not yet in the '
         'graph and was followed by an accepted call on the same pair.')
 ASSUMPTIONS = ['e > t', 'in accumulative mode the statement fixes no acceptance rule: whichever way the library answers '
                'a call on an existing pair is followed, and a ValueError must leave no trace']
@@ -23,6 +23,22 @@ KINDS = ['add', 'add', 'add', 'add_from', 'path', 'star', 'cycle', 'node', 'reje
 
 def strategy(tier):
     return gen.tiered(tier, max_ops=12, min_ops=2, kinds=KINDS, removal=(True, True, False), attrs='handles')
+
+
+def exhaustive(tier):
+    """Bulk calls with more than 1000 elements (every tier): an element in the middle is rejected, later elements
+    name nodes the graph has not seen; the four ebunch forms of drive.call_real all occur."""
+    cases = []
+    for cls in ('DynGraph', 'DynDiGraph'):
+        for removal in (True, False):
+            for v in range(6):
+                pairs = [[(i + v) % 3, (i * 2 + 1) % 3] for i in range(1100 + 37 * v)]
+                k = 600 + v
+                pairs[k] = [2, 3]                       # (2, 3) was added at t = 9: its span at t = 5 is rejected
+                pairs[k + 50] = [4, 5]                  # never reached: nodes 4 and 5 must not appear
+                cases.append({'cls': cls, 'removal': removal, 'nodes': [10, 11, 12, 13, 14, 15], 'bigbulk': True,
+                              'ops': [['add', 2, 3, 9, None], ['add_from', pairs, 5, (7 if v % 2 else None)], ['add', 0, 1, 20 + v, None]]})
+    return {'cases': cases, 'bound': '24 fixed histories with an add_interactions_from call of 1100-1300 elements whose 600th is rejected'}
 
 
 def check_nodes(rec, sub, G, M, ctx):
@@ -49,6 +65,8 @@ def check_state(rec, prefix, G, M, nodes, ctx):
 def run_case(case, rec):
     d = Driver(case)
     nontrivial = False
+    if case.get('bigbulk'):
+        rec.classify('bulk call with > 1000 elements, one rejected')
     pending = {}       # pair key -> True: a rejected call introduced something new on that pair
     for i, op in enumerate(case['ops']):
         is_add = op[0] in ADD_OPS + ('add_not', 'add_from_not')
